@@ -1583,7 +1583,20 @@ class pretty_ref_iface:
     a builtin: __module__ is None), a TypeError out of the string concatenation (assumed from reading the function; not verified)"""
     params = {"obj": TAny()}
     result = TStr()
-    raises = {"TypeError": lambda c, obj, exc: True}
+
+    def _not_a_module(c, obj, exc):
+        # for a MODULE (the runners' flavours: threading, asyncio, trio) the registered overload returns obj.__name__ and raises nothing
+        import types as _types
+
+        o = c.ctx.from_val(SV(obj.t, TAny())) if hasattr(obj, "t") else obj
+        try:
+            if isinstance(o, _ER) and isinstance(o.native(), _types.ModuleType):
+                return False
+        except Exception:  # noqa
+            pass
+        return True
+
+    raises = {"TypeError": _not_a_module}
     exact_raises = True
 
 
